@@ -387,6 +387,9 @@ func (e *termEngine) compute(v ssa.Value) *Term {
 		tt := e.of(v.Tuple)
 		return &Term{Op: "res", S: strconv.Itoa(v.Index), Args: []*Term{tt}}
 	case *ssa.Call:
+		if t := e.inlineTrivial(&v.Call); t != nil {
+			return t
+		}
 		return e.callTerm(&v.Call)
 	case *ssa.MakeMap:
 		return &Term{Op: "makemap", S: shortType(v.Type())}
@@ -408,6 +411,39 @@ func (e *termEngine) compute(v ssa.Value) *Term {
 		return T("select", "")
 	}
 	return T("opaque", fmt.Sprintf("%T", v))
+}
+
+// inlineTrivial: a call of an in-package function that is one straight-line
+// block of pure arithmetic on its parameters (no loads, stores, calls or
+// allocation) and returns one value is the same as that expression on the
+// arguments; the call disappears from terms and facts.
+func (e *termEngine) inlineTrivial(c *ssa.CallCommon) *Term {
+	h := c.StaticCallee()
+	if h == nil || c.IsInvoke() || !e.P.inPkg(h) || len(h.Blocks) != 1 || h.Signature.Results().Len() != 1 || len(h.FreeVars) != 0 {
+		return nil
+	}
+	var ret *ssa.Return
+	for _, in := range h.Blocks[0].Instrs {
+		switch x := in.(type) {
+		case *ssa.BinOp, *ssa.Convert, *ssa.ChangeType, *ssa.DebugRef:
+		case *ssa.UnOp:
+			if x.Op == token.MUL || x.Op == token.ARROW {
+				return nil
+			}
+		case *ssa.Return:
+			ret = x
+		default:
+			return nil
+		}
+	}
+	if ret == nil || len(ret.Results) != 1 {
+		return nil
+	}
+	m := map[string]*Term{}
+	for i, a := range c.Args {
+		m[strconv.Itoa(i)] = e.of(a)
+	}
+	return e.P.terms.of(ret.Results[0]).subst(m)
 }
 
 func allocID(a *ssa.Alloc) string {
